@@ -106,6 +106,9 @@ def replay_history(rep, case: dict, meta: str, d: Path, fresh_cache: dict, tid: 
             rel = str(p.relative_to(sb.out))
             if ("work/out/" + rel) in before:
                 users[rel] = k
+        for rel in fshist.EXTRA_USER:
+            if ("work/out/" + rel) in before:
+                users[rel] = "u_flav"
         extra = [p for p in tree if p not in fresh and p not in users]
         missing = [p for p in fresh if p not in tree]
         differs = [p for p in fresh if p in tree and tree[p] != fresh[p]]
@@ -229,6 +232,9 @@ def crash_leg(rep, d: Path, quick: bool, rnd) -> None:
                 rel = str(pth.relative_to(sb.out))
                 if ("work/out/" + rel) in before:
                     users[rel] = k
+            for rel in fshist.EXTRA_USER:
+                if ("work/out/" + rel) in before:
+                    users[rel] = "u_flav"
             extra = [p for p in tree if p not in fresh and p not in users]
             missing = [p for p in fresh if p not in tree]
             differs = [p for p in fresh if p in tree and tree[p] != fresh[p]]
